@@ -20,24 +20,24 @@ CHECKS = {
         'string up to a length bound plus generated scripts and mutations; Disciplined() is evaluated on every implementation outcome and every returned '
         'tree is deserialised into the typed AST (a non-node value in place of a tree is a violation).',
    note=TB + ' Absence of foreign exceptions inside the tokenizer/expander is observed (exhaustive short strings, generated scripts), not proved.'),
- 'C03': dict(level='proof', technique='Lean 4 proof (C03_partial: every span clause on every node of every successful parse, above an explicit token-source hypothesis) + the same predicate evaluated on implementation outcomes; model correspondence',
-   text='C03_partial / C03_partial_single (Props/C03*.lean, LR/SoundOrd.lean, Proofs/HoareS.lean): given the named hypothesis TokSpansAll about the token source, for every input and all options every violated clause of Spec.spansWF on every node of every returned tree '
+ 'C03': dict(level='proof', technique='Lean 4 proof (C03_total_conditional: every span clause on every node of every successful parse; the token-source hypothesis is discharged for the real tokenizer, one text-level hypothesis RootEnds is left) + the same predicate evaluated on implementation outcomes; model correspondence',
+   text='C03_total_conditional / C03_partial (Props/C03*.lean, Props/C03Total.lean, LR/SoundOrd.lean, Proofs/HoareS.lean, about 9000 lines): given RootEnds, for every input and all options every violated clause of Spec.spansWF on every node of every returned tree '
         'is one of the recorded defects (C03_known: the +heredoc, +emptydesc signatures and empty-span:reservedword, each with a kernel-checked witness): proved through an ordered-stack invariant of the LR engine (run_sound_ord, with kernel-checked table facts: every reduction but three runs with a look-ahead), one span lemma per action function, '
         'resolve of here-document redirects, the word contract of the expander and induction on nesting depth. Per input: Spec.spansWF (Lean) is evaluated on every node of every tree the implementation returns; the model reproduces the implementation\'s trees '
         '(correspondence), so a span change shows as a disagreement or a failing verdict with the input as replay. Proved: soundness of the LR engine with '
         'value invariants for arbitrary token sources (run_sound), the vehicle for the action-level span invariants.',
-   note=TB + ' TokSpansAll (positioned, non-empty, ordered tokens starting inside the input; redirects extended over a here-document only at the frontier; RootEnds) is NOT discharged for the real tokenizer: it is the part the per-input evaluation carries. Exclusions are the listed known findings (D11, D19).'),
- 'C04': dict(level='proof', technique='Lean 4 specification predicate evaluated on implementation outcomes + model correspondence',
-   text='Spec.textOK (Lean): per kind, the source under a node\'s span is the node\'s spelling (operators/reserved words/pipes modulo line continuations, '
+   note=TB + ' tokSpans discharges the token-source hypothesis for the real tokenizer (a walk of the whole tokenizer with a two-level cursor invariant; D31/D32 are documented exactly as the failing formulations). RootEnds (the root of a nested run does not end in two newlines unless a closing parenthesis follows) is the one hypothesis left; it and the correspondence are what the per-input evaluation carries. Exclusions are the listed known findings (D11, D19).'),
+ 'C04': dict(level='proof', technique='Lean 4 proof (C04_partial above the explicit token-text hypothesis TokText: provenance of every node from delivered tokens, text of operator/pipe/reserved-word nodes, redirect and word structure) + specification predicate evaluated on implementation outcomes; model correspondence',
+   text='C04_partial / C04_prov / C04_spine_* / C04_redirect / C04_word_span (Props/C04*.lean, 5400 lines): under TokText (the text under a delivered token\'s span, continuations removed, is its spelling up to four explicit residues = defects D31, D32, D31+D32 and NEWLINE over here-document bodies; validated by #eval at every build on 1173 corpus and 3730 grid strings with all suffixes in both modes, 0 failures; not proved from the tokenizer) every reserved-word, operator, pipe, redirect, word and assignment node at any depth is built from delivered tokens of the parser run that built it; operator, pipe and reserved-word nodes outside words carry exactly their text up to the recorded residues; a redirect consists of its first, operator and target tokens (numeric fd = a NUMBER spanning digits that denote it); a word node spans one token and its parts satisfy C07.PartsOK in that token\'s value (value_slice, dollar_text). Per input: Spec.textOK (Lean): per kind, the source under a node\'s span is the node\'s spelling (operators/reserved words/pipes modulo line continuations, '
         'whole shell words by an independent quote-state scanner, $name/${..}/~/$(..)/`..`/<(..) forms, redirect = fd + operator + target), evaluated on every '
         'node of every returned tree incl. nested substitutions; contexts in which bashlex is known to misplace spans are part of the violation signature.',
-   note=TB + ' Per-input evaluation against a Lean-defined oracle; no all-inputs theorem for the tokenizer\'s span bookkeeping.'),
- 'C05': dict(level='proof', technique='Lean 4 proof (C05_partial: the leaves of every part are exactly the delivered tokens, above an explicit token-source hypothesis) + specification predicate evaluated on implementation outcomes; model correspondence',
-   text='C05_partial / C05_partial_parts / C05_tokens_in_leaves (Props/C05*.lean, LR/SoundOrdH.lean, 3300 lines): given TokLogAll, for every input and all options parse returns one part per parser run, in order, and the leaves of each part (Spec.leaves) are exactly the tokens the run consumed, grouped '
+   note=TB + ' TokText is a hypothesis (validated, not proved). The word clauses of textOK (whole word, cut short, starts late), adjacency of fd and operator, and the span of a here-document redirect are outside the theorem (Unlinked) and are decided per input.'),
+ 'C05': dict(level='proof', technique='Lean 4 proof (C05_total_conditional: the leaves of every part are exactly the delivered tokens; token-source hypothesis discharged, RootEnds left) + specification predicate evaluated on implementation outcomes; model correspondence',
+   text='C05_partial / C05_partial_parts / C05_tokens_in_leaves (Props/C05*.lean, LR/SoundOrdH.lean, 3300 lines): given RootEnds (the token-source hypothesis TokLog is discharged for the real tokenizer: tokLog, Props/C05Total.lean), for every input and all options parse returns one part per parser run, in order, and the leaves of each part (Spec.leaves) are exactly the tokens the run consumed, grouped '
         '([fd] operator target = one redirect leaf, here-document bodies attached as their own leaf or inside the extended redirect): no token is duplicated and the only tokens without a leaf are NEWLINEs in five listed grammar positions, each with a kernel-checked witness; defect D19 is characterised exactly (a d19 group) and excluded by a decidable predicate. '
         'Per input: Spec.coverOK (Lean): the leaf spans of the returned parts are disjoint and every character outside them is layout (blank, newline, comment, line '
         'continuation), evaluated on every accepted input; model correspondence on the same inputs.',
-   note=TB + ' TokLogAll (the token-source hypothesis of C03 with a log of delivered tokens) is not discharged for the real tokenizer; the character-level half (text outside leaf spans is layout) and the link to the executable coverOK are not proved and are what the per-input evaluation carries.'),
+   note=TB + ' RootEnds is the one hypothesis left; the character-level half (text outside leaf spans is layout) and the link to the executable coverOK are not proved and are what the per-input evaluation carries.'),
  'C12': dict(level='proof', technique='Lean 4 typed AST + schema predicate evaluated on implementation outcomes + model correspondence; LR soundness with value invariants proved',
    text='PROVED for all inputs and all options (C12_partial, C12_partial_single, C12_only_pipelines; 4000 lines, by induction over arbitrary LR runs with a sort-indexed value invariant, an abstract type-checker of the actions decided by the kernel on the regenerated grammar, the real tokenizer\'s type/value consistency sat_nextToken, and induction on nesting depth): every node of every tree the model returns satisfies Spec.schemaOK except two named pipeline shapes. Tie: every returned tree is deserialised by a total function into the typed Lean AST (attribute sets and attribute types are then facts of the type; '
         'anything else is reported ill-typed) and Spec.schemaOK (sequence grammars of list/pipeline, kinds allowed per position, operator/pipe/redirect '
@@ -91,10 +91,10 @@ CHECKS.update({
         'same result on every tape agreeing on those cells (Q.run_prefix, runParser_prefix). parse(A+sep+B) = parse(A) ++ shift(parse(B)) is evaluated (Lean relation) on pairs and '
         'triples of accepted commands x separators x options.',
    note=TB + ' Locality of the runs on A and BlankSkip (one run commutes with translation past blank lines before B; false for the constant-span node of D19 with proceedonerror) are hypotheses of the theorem, decided per input.'),
- 'C14': dict(level='proof', technique='Lean 4 relation (induced monotone span map) evaluated on outcomes; model correspondence',
-   text='For every accepted input and layout-only edits at inter-token gaps located from the leaf spans (widening, tabs, continuation, comment at end of line, leading blank '
+ 'C14': dict(level='proof', technique='Lean 4 proof (runParser_shift: a parser run on a blank prefix followed by B is the run on B with every span moved; unconditional relational walk of tokenizer, expander, actions and engine) + relation (induced monotone span map) evaluated on outcomes; model correspondence',
+   text='runParser_shift / blankSkip_run / C13_partial_blank (Props/C14*.lean, 5600 lines): a two-run relational logic with one lemma per tape accessor and an automatic walk (rel_walk) through the WHOLE tokenizer (matched pairs, command substitutions, words, here-documents), all of word expansion, all 39 action functions, the LR engine and nested parsers at every depth: for pre made of blanks, tabs and newlines and proceedonerror = false, runParser (pre ++ B) returns the result of runParser B with every span shifted by |pre| (a top-level ParsingError carries pre ++ src and p + |pre|; errors of nested parsers are identical); the token history differs (NEWLINE tokens instead of the initial placeholder) and every reader is shown to answer the same. Per input: for every accepted input and layout-only edits at inter-token gaps located from the leaf spans (widening, tabs, continuation, comment at end of line, leading blank '
         'lines, trailing newlines) the second parse must equal the first with spans mapped by the insertion map (Spec.relayout).',
-   note=TB + ' Naturality of the LR engine and actions under span maps (T3) is not proved yet.'),
+   note=TB + ' Proved for a blank prefix (which also discharges the BlankSkip hypothesis of C13); layout edits between tokens in general, comments in the prefix and proceedonerror = true (D19: the constant (0,0) span of time, kernel-checked witness) are decided per input by the relation.'),
  'C15': dict(level='proof', technique='Lean 4 proof by structural induction over all trees and all prune predicates; trace comparison with a recording visitor',
    text='Proved (Props/C15.lean): for every tree of the typed AST and every prune predicate the visitor enters exactly the nodes reached in pre-order with pruned subtrees '
         'skipped, enter/leave events are balanced, mapPos (posshifter, _adjustpositions) rewrites the span of every node once; the kinds constructed in the sources are a subset of '
